@@ -114,3 +114,21 @@ Qed.
 
 End Laws.
 End DenseLaws.
+
+(* the tick semantics only looks at the predicate kinds point-wise (C06, dense time) *)
+Section PkExtZ.
+Context {VS : Val} (AR : Arith VS).
+Lemma rhoZ_pk_ext (pk1 pk2 : formula -> formula -> pkind) (W : list dsig) (tend : Z) :
+  (forall f g, pk1 f g = pk2 f g) ->
+  forall p t, rhoZ AR pk1 W tend p t = rhoZ AR pk2 W tend p t.
+Proof.
+  intros H. induction p; intros t; cbn [rhoZ]; rewrite ?H;
+  repeat first
+    [ reflexivity
+    | rewrite IHp | rewrite IHp1 | rewrite IHp2
+    | match goal with |- context [if ?c then _ else _] => destruct c end
+    | apply zmax_ext; intros ? ?
+    | apply zmin_ext; intros ? ?
+    | f_equal ].
+Qed.
+End PkExtZ.
